@@ -211,16 +211,16 @@ variable {σ : Type}
 def ColForm.tableE (F : ColForm σ) (ap : Bool) (t : FTab σ) (ht : F.specOK ap t) : EForm ap where
   pre := t.comment
   head := 'T'
-  body := 'a' :: 'b' :: 'l' :: 'e' :: ' ' :: '"' :: (t.name ++ '"' :: ' ' :: '{' :: '\n' :: (F.text t.cols ++ ['}']))
+  body := 'a' :: 'b' :: 'l' :: 'e' :: ' ' :: '"' :: (t.name ++ '"' :: ' ' :: '{' :: '\n' :: (F.text t.cols ++ (noteBlock t.note ++ ['}'])))
   elem := F.mkElem t
   headOK := by decide
   headAscii := by decide
-  preOK := ht.2.2.2
-  noTab := F.tableText_no_tab ap t.name t.cols ht.1 ht.2.1
+  preOK := ht.2.2.2.1
+  noTab := F.tableTextN_no_tab ap t.name t.cols t.note ht.1 ht.2.1 ht.2.2.2.2.1
   parse := by
     intro c c0 post hb hr0 hp0 hpv0 hends
-    obtain ⟨c9, hrule, hQ⟩ := F.tableRule_okP ap c c0 t.name t.cols post (After post) (cmList t.comment) hb
-      (by rw [hr0]; simp [ColForm.tableTextP]) hp0 hpv0 ht.1 ht.2.1 ht.2.2.1
+    obtain ⟨c9, hrule, hQ⟩ := F.tableRule_okP ap c c0 t.name t.cols t.note post (After post) (cmList t.comment) hb
+      (by rw [hr0]; simp [ColForm.tableTextP]) hp0 hpv0 ht.1 ht.2.1 ht.2.2.1 ht.2.2.2.2
       (fun c7 hr7 hp7 => endRule_afterE c7 post hends hr7 hp7)
     refine ⟨c9, ?_, hQ⟩
     unfold element alt ColForm.mkElem
@@ -229,7 +229,7 @@ def ColForm.tableE (F : ColForm σ) (ap : Bool) (t : FTab σ) (ht : F.specOK ap 
 
 theorem ColForm.tableE_text (F : ColForm σ) (ap : Bool) (t : FTab σ) (ht : F.specOK ap t) :
     (F.tableE ap t ht).text = F.tabText t := by
-  simp [EForm.text, ColForm.tableE, ColForm.tabText, ColForm.tableText]
+  simp [EForm.text, ColForm.tableE, ColForm.tabText, ColForm.tableTextN]
 
 /-- a standalone reference in block form -/
 def refE (ap : Bool) (r : RText) (hok : RTextOK r) : EForm ap where
